@@ -7,3 +7,22 @@ package jsonld
 //@ func (*jsonld).Configure
 //@   prop C20
 //@   call NewContextLoader #1 requires arg(0) == !serverConfig.Strictmode
+
+// ---- C20: in strict mode a remote JSON-LD context is fetched only when its URL is ON the allow list: the
+// filtering loader hands a URL to the next loader only if it EQUALS an entry, and hands over exactly that URL ----
+//@ func (ld.DocumentLoader).LoadDocument
+//@   trusted
+//@   benign
+//@ func (filteredDocumentLoader).LoadDocument
+//@   prop C20
+//@   call (ld.DocumentLoader).LoadDocument #* requires [only-listed-contexts-are-fetched] arg(0) == h.nextLoader && arg(1) == u
+//@        && (exists k int :: 0 <= k && k < len(h.AllowedURLs) && h.AllowedURLs[k] == u)
+//@ func NewFilteredLoader
+//@   prop C20
+//@   modifies nothing
+//@   ensures [filters-with-the-given-list] typeOf(result) == *filteredDocumentLoader && result.(*filteredDocumentLoader).nextLoader == nextLoader
+//@        && same(result.(*filteredDocumentLoader).AllowedURLs, allowedURLs)
+// The loader a strict node is configured with IS the filtering loader (the preloading of mapped files goes through it too).
+//@ func NewContextLoader
+//@   prop C20
+//@   ensures [strict-means-filtered] !allowUnlistedExternalCalls && isNilIface(result.1) ==> did(call NewFilteredLoader #1) && result.0 == ret(call NewFilteredLoader #1)
